@@ -3,6 +3,7 @@
    [Print Assumptions]; models are in Model/, proofs in Proofs/. *)
 From Coq Require Import List NArith Bool.
 From FS Require Import Sx Model.Path Model.Validator Proofs.Lex Proofs.PathP Proofs.ValidatorP.
+From FSGen Require FromSource.
 Import ListNotations.
 
 (* The path comparison equals comparing paths component by component
@@ -62,3 +63,11 @@ Proof. vm_compute. reflexivity. Qed.
 Example dot_and_dotdot_rejected :
   run_validator [mk 0 [46] true] = Some 0%nat /\ run_validator [mk 0 [46; 46] false] = Some 0%nat.
 Proof. vm_compute. split; reflexivity. Qed.
+
+(* ---- source-derived obligation (regenerated from /repo on every run): the string
+        literals HandleChange compares the path against include ".", ".." and "../",
+        i.e. the lexical rejections the model's vsplit/ok_path encode ---- *)
+Example from_source_validator_literals :
+  forallb (fun l => existsb (bytes_eqb l) FromSource.validator_literals)
+          [s_dot; s_dotdot; s_dotdotsep] = true.
+Proof. vm_compute. reflexivity. Qed.
